@@ -211,6 +211,49 @@ def majorityDone (rows cols n : Int) : Bool :=
   iterNeDone 0 (rows - n) (rows.toNat + 1) && iterNeDone 0 (cols - n) (cols.toNat + 1) &&
     iterNeDone 0 n (rows.toNat + 1) && iterNeDone 0 n (cols.toNat + 1)
 
+/-! ## B4 — `hitmiss` (`_morph.cpp`) -/
+
+/-- `delta = input.pos_to_flat(Bi.position() - centre)` for every coordinate of `Bc` in scan order
+    (`pos_to_flat` is the signed C-order dot product `ravelZ`; `centre = Bc.dim/2`; entries equal to 2
+    are dropped by the code, the model keeps all). -/
+def hmDeltas (shape bshape : List Nat) : List Int :=
+  (allPos bshape).map fun k => ravelZ shape (subPos k (bshape.map origin))
+
+/-- the margin test of the `while (!slack)` body on `cur = flat_to_pos(i)`: the first axis `d` with
+    `min(cur[d], dim(d) - cur[d] - 1) < Bc.dim(d)/2` and the number of elements `size` to skip. -/
+def hmFirstFail : List Nat → List Nat → List Int → Option Nat
+  | a :: as, b :: bs, c :: cs =>
+    if min c ((a : Int) - c - 1) < origin b then some (shapeSize as) else hmFirstFail as bs cs
+  | _, _, _ => none
+
+/-- the main loop, one step per `while` round / per processed pixel, with a step budget.
+    State `(i, slack)`. `slack0 = dim(last) - Bc.dim(last) + 1`. Accesses: `res.at_flat(i)` when
+    skipping, `input.at_flat(i + delta)` for every neighbour and `res.at_flat(i)` when processing
+    (`at_flat(p)` needs `0 ≤ p < N`: it is `data()[p]` for C arrays, else the C-order position of `p`).
+    The Boolean is `true` when the loop ended through `i == N`. `margin = false` removes the test. -/
+def hmLoop (shape bshape : List Nat) (deltas : List Int) (margin : Bool) (N : Nat) (slack0 : Int) :
+    Nat → Nat → Int → List Acc × Bool
+  | 0, i, _ => ([], decide (i = N))
+  | f + 1, i, slack =>
+    if i = N then ([], true) else
+    if slack = 0 then
+      match (if margin then hmFirstFail shape bshape (unravelI shape i) else none) with
+      | some size =>
+        let cnt := min size (N - i)
+        let w := (List.range cnt).map fun j => Acc.mk ((i + j : Nat) : Int) N
+        let r := hmLoop shape bshape deltas margin N slack0 f (i + cnt) 0
+        (w ++ r.1, r.2)
+      | none => hmLoop shape bshape deltas margin N slack0 f i slack0
+    else
+      let here := deltas.map (fun δ => Acc.mk ((i : Int) + δ) N) ++ [Acc.mk (i : Int) N]
+      let r := hmLoop shape bshape deltas margin N slack0 f (i + 1) (slack - 1)
+      (here ++ r.1, r.2)
+
+def hmRun (shape bshape : List Nat) (margin : Bool) : List Acc × Bool :=
+  let N := shapeSize shape
+  hmLoop shape bshape (hmDeltas shape bshape) margin N
+    ((shape.getLastD 0 : Int) - (bshape.getLastD 0 : Int) + 1) (2 * N + 2) 0 0
+
 /-! ## B6 — `dist_transform` (`_distance.cpp`): `z[n+1]`, `v[n]`, `f[n]`, `Df[n]` -/
 
 /-- the do-while of the first loop at `(q, k)`; `cmp q k` abstracts the float test `s > z[k]`
@@ -320,6 +363,9 @@ def handle (a : Args) : String :=
   | "majority" =>
     report (majorityAccesses (a.int "rows") (a.int "cols") (a.int "n"))
       (majorityDone (a.int "rows") (a.int "cols") (a.int "n"))
+  | "hitmiss" =>
+    let r := hmRun (a.nats "shape") (a.nats "bshape") (a.int "margin" 1 ≠ 0)
+    report r.1 r.2
   | "dt" =>
     let n := a.nat "n"
     let pop := a.ints "pop"
